@@ -490,6 +490,19 @@ fn ring_of(k: usize, base: usize, seen: &'static [std::sync::atomic::AtomicU8]) 
     objs
 }
 
+/// The same ring with exactly one outside handle, built without releasing any handle (the
+/// original handle of member i+1 is moved into member i), so that building costs no trace.
+fn ring_keep(k: usize, base: usize, seen: &'static [std::sync::atomic::AtomicU8]) -> Rc<Big> {
+    let mut objs: Vec<Option<Rc<Big>>> = (0..k).map(|i| Some(Rc::new(Big { id: base + i, seen, slots: RefCell::new(Vec::new()) }))).collect();
+    let first = Rc::clone(objs[0].as_ref().unwrap());
+    link(objs[k - 1].as_ref().unwrap(), first, false);
+    for i in (0..k - 1).rev() {
+        let t = objs[i + 1].take().unwrap();
+        link(objs[i].as_ref().unwrap(), t, false);
+    }
+    objs[0].take().unwrap()
+}
+
 pub fn nested(sizes: &[usize]) -> NestedOut {
     let n: usize = sizes.iter().sum();
     let seen: &'static [std::sync::atomic::AtomicU8] = Box::leak((0..n).map(|_| std::sync::atomic::AtomicU8::new(0)).collect::<Vec<_>>().into_boxed_slice());
@@ -501,13 +514,19 @@ pub fn nested(sizes: &[usize]) -> NestedOut {
         let mut base = n;
         for &k in sizes.iter().rev() {
             base -= k;
-            let objs = ring_of(k, base, seen);
+            let keep = ring_keep(k, base, seen);
             if let Some(h) = next.take() {
-                objs[k / 2].slots.borrow_mut().push(h);
+                // some member of this ring (reached through the chain of stored handles)
+                // holds, unrecorded, the last outside handle of the next ring
+                let mut m = Rc::clone(&keep);
+                for _ in 0..(k / 2).min(64) {
+                    let nx = Rc::clone(&m.slots.borrow()[0]);
+                    m = nx;
+                }
+                m.slots.borrow_mut().push(h);
+                // (dropping the walking clone is one trace over this ring: linear)
             }
-            let mut it = objs.into_iter();
-            next = it.next();
-            drop(it);
+            next = Some(keep);
         }
         drop(next);
     }
@@ -612,4 +631,57 @@ pub fn huge_adopt(pow: u32) -> HugeAdoptOut {
         count_errors += 1;
     }
     HugeAdoptOut { pow, destroyed, count_errors, ms: t0.elapsed().as_millis() }
+}
+
+/// Several threads, each with graphs of its own (the handle types are neither Send nor
+/// Sync, so nothing is shared between them except what the library itself keeps in
+/// statics): every thread builds fully recorded rings with chords, traces each a few
+/// times while holding it (nothing may die) and releases it (everything must die, once).
+/// This is a stress run on real threads: which thread runs when is NOT decided by the
+/// simulator, so a failure is a true positive that may not replay exactly.
+pub fn threads(t: usize, rounds: usize, seed: u64) -> Vec<(usize, usize, String)> {
+    let hs: Vec<_> = (0..t)
+        .map(|ti| {
+            std::thread::spawn(move || {
+                let mut rng = crate::gen::Rng(seed ^ (ti as u64 + 1).wrapping_mul(0x9E3779B97F4A7C15));
+                let seen: &'static [std::sync::atomic::AtomicU8] = Box::leak((0..8).map(|_| std::sync::atomic::AtomicU8::new(0)).collect::<Vec<_>>().into_boxed_slice());
+                for r in 0..rounds {
+                    let k = 2 + rng.below(6);
+                    for s in seen.iter() {
+                        s.store(0, Relaxed);
+                    }
+                    let objs = ring_of(k, 0, seen);
+                    for _ in 0..rng.below(4) {
+                        let (a, b) = (rng.below(k), rng.below(k));
+                        link(&objs[a], Rc::clone(&objs[b]), false);
+                    }
+                    let mut it = objs.into_iter();
+                    let keep = it.next().unwrap();
+                    drop(it);
+                    for _ in 0..3 {
+                        drop(Rc::clone(&keep));
+                        let dead = seen.iter().take(k).filter(|s| s.load(Relaxed) != 0).count();
+                        if dead != 0 {
+                            return Some((ti, r, format!("{dead} of {k} members of a held ring were destroyed by a trace")));
+                        }
+                    }
+                    drop(keep);
+                    let dead = seen.iter().take(k).filter(|s| s.load(Relaxed) == 1).count();
+                    if dead != k {
+                        return Some((ti, r, format!("{dead} of {k} members died when the ring was orphaned")));
+                    }
+                }
+                None
+            })
+        })
+        .collect();
+    let mut bad = vec![];
+    for (ti, h) in hs.into_iter().enumerate() {
+        match h.join() {
+            Ok(Some(b)) => bad.push(b),
+            Ok(None) => {}
+            Err(_) => bad.push((ti, 0, "the thread panicked inside the library".to_string())),
+        }
+    }
+    bad
 }
